@@ -391,6 +391,9 @@ def line_path(path, limit=40):
 # and after the extraction.  Helpers the rules know by name stay separate functions.
 
 INLINE_MAX_BLOCKS = 40
+# a helper called from up to INLINE_MULTI_SITES places of its own file is copied into each when it is this small
+INLINE_MULTI_SITES = 3
+INLINE_MULTI_BLOCKS = 14
 import os as _os
 INLINE_HELPERS = _os.environ.get("VERIF_NO_INLINE") is None
 
@@ -445,7 +448,7 @@ def _splice(raw_a, raw_h):
     site = None
     for b in blocks:
         for i, ev in enumerate(b.get("ev", [])):
-            if ev["e"] == "C" and ev["x"].get("fn") == hname:
+            if ev["e"] == "C" and ev["x"].get("fn") == hname and not ev.get("spl"):
                 site = (b, i)
                 break
         if site:
@@ -453,6 +456,7 @@ def _splice(raw_a, raw_h):
     if site is None:
         return None
     B, i = site
+    B["ev"][i] = dict(B["ev"][i], spl=True)
     call = B["ev"][i]["x"]
     args = call.get("a", [])
     maxid = max(b["id"] for b in blocks)
@@ -591,27 +595,33 @@ def absorb_helpers(fns, addr_taken, known):
         if len(h.raw.get("blocks", [])) > INLINE_MAX_BLOCKS or h.raw.get("entry") is None:
             continue
         s = sites.get(h.name, [])
-        if len(s) == 1 and s[0] is not h and s[0].file == h.file:
-            into[h.name] = s[0].name
+        if not s or any(c is h or c.file != h.file for c in s):
+            continue
+        if len(s) == 1 or (len(s) <= INLINE_MULTI_SITES and len(h.raw.get("blocks", [])) <= INLINE_MULTI_BLOCKS):
+            into[h.name] = sorted(set(c.name for c in s))
     if not into:
         return fns, set()
     memo = {}
+    hosts = set(c for cs in into.values() for c in cs)
 
     def inl(name, depth=0):
         if name in memo:
             return memo[name]
         raw = byname[name].raw
         if depth < 4:
-            for hn, cn in into.items():
-                if cn == name and hn != name:
-                    r2 = _splice(raw, inl(hn, depth + 1))
-                    if r2 is not None:
+            for hn, cns in into.items():
+                if name in cns and hn != name:
+                    hraw = inl(hn, depth + 1)
+                    for _ in range(INLINE_MULTI_SITES):
+                        r2 = _splice(raw, hraw)
+                        if r2 is None:
+                            break
                         raw = r2
         memo[name] = raw
         return raw
     out = []
     for f in fns:
-        raw = inl(f.name) if (f.name in into.values() and byname.get(f.name) is f) else f.raw
+        raw = inl(f.name) if (f.name in hosts and byname.get(f.name) is f) else f.raw
         if raw is not f.raw:
             g = Fn(raw, f.uid)
             out.append(g)
@@ -619,7 +629,7 @@ def absorb_helpers(fns, addr_taken, known):
             out.append(f)
     for f in out:
         if f.name in into and f.static and f.file == byname[f.name].file:
-            f.absorbed_into = into[f.name]
+            f.absorbed_into = into[f.name][0]
     return out, set(into)
 
 
